@@ -155,6 +155,11 @@ func (ch *serverChannel) Request(ctx async.Context) (prpc.Request, status.Status
 // The message is valid until the next call to Receive/ReceiveAsync.
 func (ch *serverChannel) Receive(ctx async.Context) ([]byte, status.Status) {
 	for {
+		// Get the wait channel before polling. The queue checks only its first block and discards
+		// a pending notification in ReadWait, a message added between the poll and the wait
+		// would not wake this loop.
+		wait := ch.ReceiveWait()
+
 		msg, ok, st := ch.ReceiveAsync(ctx)
 		switch {
 		case !st.OK():
@@ -166,7 +171,7 @@ func (ch *serverChannel) Receive(ctx async.Context) ([]byte, status.Status) {
 		select {
 		case <-ctx.Wait():
 			return nil, ctx.Status()
-		case <-ch.ReceiveWait():
+		case <-wait:
 		}
 	}
 }
